@@ -35,6 +35,7 @@ mod oracle_c07;
 mod oracle_c18;
 mod script_c02;
 mod script_c05;
+mod script_c01;
 mod script_c06;
 mod script_c18;
 mod step;
@@ -1245,6 +1246,7 @@ fn main() {
     std::panic::set_hook(Box::new(|_| {}));
     let mut out = Out::new();
     let seed = seed_from_env();
+    if script_name.as_deref() == Some("c01") { script_c01::run(&mut out, seed, thorough); out.flush(); return; } // C01: choices over break / glue marks, own driver loop
     if script_name.as_deref() == Some("c06") { script_c06::run(&mut out, seed, thorough); out.flush(); return; } // C06: finite key sweep, own driver loop
     if args.iter().any(|a| a == "--c17-pairs") {
         // C17: paired executions only (with/without getters, reset vs fresh, alone vs beside another context)
